@@ -521,8 +521,14 @@ class NestedFrame(pd.DataFrame):
         kwargs["resolvers"] = tuple(kwargs.get("resolvers", ())) + (_NestResolver(self),)
         kwargs["inplace"] = inplace
         kwargs["parser"] = "nested-pandas"
-        answer = super().eval(expr, **kwargs)
-        self._aliases = None
+        try:
+            answer = super().eval(expr, **kwargs)
+        finally:
+            # Aliases are only meaningful while the evaluation is in progress
+            self._aliases = None
+        # A non-inplace assignment returns a copy made while the aliases were set
+        if isinstance(answer, NestedFrame):
+            answer._aliases = None
         return answer
 
     def extract_nest_names(
